@@ -498,7 +498,7 @@
         kani::cover!(true);
     }
 
-    // @harness ids=C09,C01 tier=thorough kind=proof units=app::parse::parser::ObjectParser::parse_free_format_u16,app::parse::free_format::FreeFormatVariation::parse timeout=300 note="as vk_c09_objparser_free_format_exact_consumption with the header declaring 23 octets for a 22-octet descriptor (one trailing octet inside the declared object): rejected"
+    // @harness ids=C09,C01 tier=quick kind=proof units=app::parse::parser::ObjectParser::parse_free_format_u16,app::parse::free_format::FreeFormatVariation::parse timeout=300 note="as vk_c09_objparser_free_format_exact_consumption with the header declaring 23 octets for a 22-octet descriptor (one trailing octet inside the declared object): rejected"
     #[kani::proof]
     #[kani::unwind(6)]
     fn vk_c09_objparser_free_format_declared_long() {
